@@ -190,7 +190,7 @@ func (c *Counter) Bump(by int32) (int32, bool) {
 
 func NewCounter(lim int32) *Counter { return &Counter{0, lim * 2} }
 
-// ---- must be refused
+// ---- loops (recursion on explicit fuel; the first argument of the generated definition)
 func Loop(n int32) int32 {
 	s := int32(0)
 	for i := int32(0); i < n; i++ {
@@ -198,6 +198,89 @@ func Loop(n int32) int32 {
 	}
 	return s
 }
+func CallsLoop(n int32) int32 { return Loop(n) + 1 }
+
+func SumSquares(n uint8) uint32 {
+	s := uint32(1 << 31)
+	for i := uint8(0); i < n; i++ {
+		s += uint32(i) * uint32(i) * 0x10001
+	}
+	return s
+}
+
+func BreakContinue(n uint8, k uint8) int32 {
+	r := int32(0)
+	for i := uint8(0); i < n; i++ {
+		if i == k {
+			continue
+		}
+		if i > 100 && i&k == 4 {
+			r -= 1000
+			break
+		}
+		r += int32(i)
+	}
+	return r * 2
+}
+
+func NestedLoops(n uint8, m uint8) uint16 {
+	s := uint16(0)
+	for i := uint8(0); i < n&31; i++ {
+		for j := i; j < m&31; j += 3 {
+			s = s*3 + uint16(j) ^ uint16(i)
+		}
+		s++
+	}
+	return s
+}
+
+func Find(xs []uint64, v uint64) int {
+	for i, x := range xs {
+		if x == v {
+			return i
+		}
+	}
+	return -1
+}
+
+func EarlyReturn(xs []uint8, lim int) uint16 {
+	acc := uint16(0)
+	for i := 0; i < lim; i++ {
+		acc += uint16(xs[i]) // panics past the end
+		if acc > 300 {
+			return acc - 300
+		}
+	}
+	return acc
+}
+
+func TwoLoops(n uint8) uint8 {
+	a := uint8(0)
+	for i := uint8(0); i < n>>2; i++ {
+		a += 3
+	}
+	for a > 10 {
+		a -= 7
+	}
+	return a
+}
+
+func WhileShift(b uint64) uint64 { // the shape of bmtree.shiftMulti
+	rst := uint64(0)
+	shift := uint64(40)
+	n := bits.TrailingZeros64(b)
+	b >>= uint(n)
+	shift -= uint64(n)
+	for b != 0 {
+		rst += 0xdeadbeefcafe >> shift
+		n := bits.TrailingZeros64(b - 1)
+		b >>= uint(n)
+		shift -= uint64(n)
+	}
+	return rst
+}
+
+// ---- must be refused
 func Div(a, b int32) int32          { return a / b }
 func StoreParam(xs []uint64)        { xs[0] = 1 }
 func Alloc(n int) []uint64          { return make([]uint64, n) }
@@ -209,7 +292,20 @@ func Recursive(n uint32) uint32 {
 	}
 	return Recursive(n-1) + 1
 }
-func CallsLoop(n int32) int32 { return Loop(n) + 1 }
+func FillLoop(xs []uint64) {
+	for i := range xs {
+		xs[i] = uint64(i)
+	}
+}
+func (c *Counter) Drain() int32 {
+	k := int32(0)
+	for c.n > 0 {
+		c.n--
+		k++
+	}
+	return k
+}
+func CallsRefused(a int32) int32 { return Div(a, 3) + 1 }
 
 // test access to the unexported fields (not translated)
 func SetCounter(c *Counter, n, lim int32)  { c.n, c.lim = n, lim }
